@@ -59,7 +59,23 @@ func zzBuildC09() [][]zzPat {
 		{{"world", "a", "COIN/1"}, {"world", "a", "COIN/18"}, {"a", "b", "COIN/1"}},
 	}
 	out = append(out, confusable...)
+	// assets the grammar does not allow, submitted on the path that does not validate
+	// postings up front (v2): refused as a whole, never rewritten into another asset
+	out = append(out, [][]zzPat{
+		{{"world", "a", "usd/2"}},
+		{{"world", "a", "usd/2"}, {"world", "a", "USD/2"}},
+		{{"world", "a", "Eur"}, {"a", "b", "EUR"}},
+	}...)
 	return out
+}
+
+func zzOddAsset(pat []zzPat) bool {
+	for _, p := range pat {
+		if !ledger.AssetIsValid(p.Asset) {
+			return true
+		}
+	}
+	return false
 }
 
 func zzAssetsOf(pat []zzPat) []string {
@@ -106,8 +122,9 @@ func ZZ_C09(shape int) {
 		amts[i] = verifhook.BigInt(fmt.Sprintf("amt%d", i))
 		postings[i] = ledger.Posting{Source: p.Src, Destination: p.Dst, Asset: p.Asset, Amount: amts[i]}
 	}
-	// what the API layer validates up front
-	if _, err := postings.Validate(); err != nil {
+	odd := zzOddAsset(pat)
+	// what the v1 API layer validates up front (v2 hands the postings to the engine as they are)
+	if _, err := postings.Validate(); err != nil && !odd {
 		verifhook.Reach("validation-refused")
 		neg := false
 		for _, a := range amts {
@@ -130,6 +147,12 @@ func ZZ_C09(shape int) {
 		if p.Dst != "world" {
 			run[p.Dst+"|"+p.Asset] = new(big.Int).Add(run[p.Dst+"|"+p.Asset], amts[i])
 		}
+	}
+	if odd {
+		verifhook.Reach("odd-asset")
+		verifhook.Assert(err != nil, "C09 a posting in an asset the language does not allow is committed (under another asset or as it is)")
+		verifhook.Assert(len(st.Logs()) == 1 && len(st.Transactions()) == 1, "C09 rejected request leaves nothing behind")
+		return
 	}
 	if err != nil {
 		verifhook.Reach("rejected")
